@@ -15,7 +15,7 @@ from symx.env import Content
 
 QUERY_KINDS = ('is_file', 'is_dir', 'exists', 'list_dir', 'walk', 'get_size', 'read_m', 'read_h')
 # further spellings of the same operations (other public wrappers): bottom-up walk, read_text, declare_read
-EXTRA_KINDS = ('walk_bu', 'read_t', 'declare')
+EXTRA_KINDS = ('walk_bu', 'read_t', 'declare', 'declare_m')
 BF_MODES = ('ok', 'raise_before', 'raise_after', 'no_create', 'nonjson')
 
 
@@ -86,6 +86,8 @@ def do_query(b, side, kind, path):
             r = side.world.cid_of(data, side.fs)
         elif kind == 'declare':
             r = b.declare_read(path, _fc(side, 'HASH'))
+        elif kind == 'declare_m':
+            r = b.declare_read(path, _fc(side, 'METADATA'))
         elif kind == 'walk_bu':
             r = sorted([[d, sorted(sd), sorted(sf)] for d, sd, sf in b.walk(path, False)])
         elif kind == 'read_m' or kind == 'read_h':
